@@ -7,7 +7,8 @@ import warnings
 import core
 from core import Driver, rat
 from pool import err_kind, run_pool
-from props.lp_common import enc_mat, enc_num, enc_point, enc_vec, finite
+from props.lp_common import (RecCtx, enc_mat, enc_num, enc_point, enc_vec, finite, lp_candidates, shrink,
+                              write_min)
 
 AREAS = ["Lp"]
 LEVEL = "proof"
@@ -19,20 +20,22 @@ ASSUMPTIONS = [
     "of a set of small non-negative ints is taken to be ascending",
     "all answers (every configuration) are judged against the certified exhaustive oracle (every integer "
     "assignment of a certified box, continuous remainder by the certifying simplex)",
-    "rounding/LNS heuristics and RNG are outside Lean: their incumbents are judged by the verified isFeasible",
+    "rounding/LNS heuristics and RNG are outside Lean: their incumbents are judged by the verified isFeasible; "
+    "solvor.milp._is_feasible itself is compared with the proved mirror on points around every default solution",
+    "refinement hypothesis (every node LP answer is what B&B needs) is discharged per input: the mirror's `ok` "
+    "flag = nodeCheck on every explored node with the exact certifying simplex (counted in the histogram)",
     "IEEE rounding of the node LPs is not modelled; gap: eps (1e-6) in isFeasible, gap_tol in the optimum test",
 ]
 RULE = ("small MILPs with integer data in -5..9, 2-5 variables (6 thorough), every kind of integer subset "
         "(none/some/all), families binary-knapsack (explicit x<=1 rows), bounded general integer, covering "
         "(phase 1), implicit binary, parity-infeasible, relaxation-unbounded; both senses; each instance run "
-        "under 6 configurations (default, heuristics off, LNS, warm start feasible/infeasible/wrong length, "
+        "under 6 configurations (default, heuristics off, LNS, warm start feasible/infeasible/wrong length and "
+        "adversarial: one clause of _is_feasible violated in an objective-improving direction, "
         "solution_limit 2/5, small max_nodes); non-trivial = the default run explored >= 2 nodes; "
         "distinct by canonical (c, A, b, integers, minimize)")
 
-MISSING = ["Lp.Bnb [S]: step-by-step mirror of the best-first loop of solve_milp (heap order, _solve_node bound folding) "
-           "is not written; the loop is proved at the abstract level (bnb_invariant / bnb_optimal / bnb_infeasible / "
-           "bnb_gap / heuristic_incumbent_feasible, branch_covers, binary_tightening_sound) and the implementation's "
-           "answers are judged against the certified exhaustive oracle on every explored input"]
+MISSING = []   # Lp.Bnb mirror + refinement (bnb_mirror_refines / bnb_mirror_sound / solveMilp_sound) are proved; the
+# rounding / LNS heuristics (heuristics=True) stay outside Lean by design: arbitrary candidates filtered by isFeasible
 
 EPS = 1e-6
 GAP_TOL = 1e-6
@@ -141,8 +144,10 @@ def gen_instance(rng, big):
 def gen_configs(rng):
     """the configurations one instance is run under; warm starts are built inside `impl` from the default
     run's solution (feasible), a shifted copy (infeasible) and a copy of the wrong length"""
-    cfgs = [{}, {"heuristics": False}]
+    cfgs = [{}, {"heuristics": False}, {"warm": rng.choice(["adv_neg", "adv_neg", "adv_frac", "adv_row"]),
+                                       "heuristics": rng.random() < 0.5}]
     pool = [
+        {"warm": "adv_neg"}, {"warm": "adv_frac"}, {"warm": "adv_row"},
         {"lns_iterations": rng.choice([1, 3, 10]), "seed": rng.randint(0, 99)},
         {"warm": "feasible"},
         {"warm": "infeasible"},
@@ -154,7 +159,7 @@ def gen_configs(rng):
         {"lns_iterations": rng.choice([2, 5]), "seed": rng.randint(0, 99), "warm": "feasible"},
     ]
     rng.shuffle(pool)
-    return cfgs + pool[:4]
+    return cfgs + pool[:3]
 
 
 def edge_cases():
@@ -183,9 +188,94 @@ def _res(r):
             "nodes": r.iterations, "sols": ([list(s) for s in sols] if sols else [])}
 
 
+def adversarial(kind, c, A, b, ints, minimize, x0):
+    """An INFEASIBLE start that violates exactly one clause of `_is_feasible` by a clear margin and, among the
+    candidates, has the best objective (so that accepting it changes the answer):
+    adv_neg  one coordinate (continuous ones first) pushed below 0, rows and integrality still satisfied;
+    adv_frac one integer coordinate moved off integrality by 0.25/0.5, rows and x >= 0 still satisfied;
+    adv_row  one coordinate moved by an integer step so that some row is violated by >= 0.5, x >= 0 kept."""
+    n = len(c)
+    sgn = 1 if minimize else -1
+
+    def lhs(x):
+        return [sum(r[j] * x[j] for j in range(n)) for r in A]
+
+    def rows_ok(x):
+        return all(v <= bi + 1e-9 for v, bi in zip(lhs(x), b))
+
+    def obj(x):
+        return sgn * sum(c[j] * x[j] for j in range(n))
+
+    cands = []
+    order = [j for j in range(n) if j not in ints] + [j for j in range(n) if j in ints]
+
+    def variants(x, j):
+        """x itself and x with ONE other coordinate moved by an integer step (kept >= 0) to repair / improve"""
+        yield x
+        for k in range(n):
+            if k == j:
+                continue
+            for t in (1.0, 2.0, 3.0, 4.0, -1.0, -2.0, -3.0):
+                if x[k] + t >= 0:
+                    y = list(x); y[k] = x[k] + t
+                    yield y
+
+    if kind == "adv_neg":
+        for j in order:
+            for d in ((1.0, 2.0, 3.0) if j in ints else (0.5, 1.0, 2.0, 4.0)):
+                x = list(x0); x[j] = -d
+                cands += [y for y in variants(x, j) if rows_ok(y)]
+    elif kind == "adv_frac":
+        for j in ints:
+            for d in (0.5, -0.5, 0.25, -0.25):
+                x = list(x0); x[j] = x0[j] + d
+                if x[j] >= 0:
+                    cands += [y for y in variants(x, j) if rows_ok(y)]
+    elif kind == "adv_row":
+        for j in order:
+            for step in (1.0, -1.0, 2.0, -2.0, 3.0, 4.0):
+                x = list(x0); x[j] = x0[j] + step
+                if x[j] >= 0 and any(v > bi + 0.5 for v, bi in zip(lhs(x), b)):
+                    cands.append(x)
+    if not cands:
+        return [v - 1.0 for v in x0]
+    return min(cands, key=obj)
+
+
+def filter_points(c, A, b, ints, minimize, x0, eps):
+    """points on which `_is_feasible` itself is compared with the proved mirror: a (near-)feasible point, every
+    single-clause violation, and points at eps/2 and 2 eps from each kind of boundary"""
+    n = len(c)
+    pts = [("base", list(x0))]
+    for kind in ("adv_neg", "adv_frac", "adv_row"):
+        pts.append((kind, adversarial(kind, c, A, b, ints, minimize, x0)))
+    for j in range(n):
+        for tag, d in (("in", eps / 2), ("out", 2 * eps)):
+            x = list(x0); x[j] = -d
+            pts.append((f"neg_{tag}", x))
+    for j in ints:
+        for tag, d in (("in", eps / 2), ("out", 2 * eps)):
+            for sg in (1, -1):
+                x = list(x0); x[j] = round(x0[j]) + sg * d
+                if x[j] >= 0 or tag == "in":
+                    pts.append((f"int_{tag}", x))
+    cont = [j for j in range(n) if j not in ints]
+    for i, row in enumerate(A):
+        for j in cont:
+            if row[j] != 0:
+                for tag, d in (("in", eps / 2), ("out", 2 * eps)):
+                    x = list(x0)
+                    t = (b[i] + d - sum(row[k] * x0[k] for k in range(n))) / row[j]
+                    x[j] = x0[j] + t
+                    if x[j] >= 0:
+                        pts.append((f"row_{tag}", x))
+                break
+    return pts[:40]
+
+
 def impl(case):
     warnings.simplefilter("ignore")
-    from solvor.milp import solve_milp
+    from solvor.milp import solve_milp, _is_feasible
     c, A, b, ints = case["c"], case["A"], case["b"], case["integers"]
     outs = []
     base_x = None
@@ -198,6 +288,8 @@ def impl(case):
                 x0 = [v - 1.0 for v in x0]            # some coordinate becomes negative
             elif w == "wrong_length":
                 x0 = x0 + [0.0]
+            elif w.startswith("adv_"):
+                x0 = adversarial(w, c, A, b, ints, case["minimize"], [float(v) for v in x0])
             kw["warm_start"] = x0
         try:
             r = _res(solve_milp(list(c), [list(r_) for r_ in A], list(b), list(ints), minimize=case["minimize"], **kw))
@@ -207,7 +299,16 @@ def impl(case):
             outs.append(("ok", r))
         except Exception as e:  # noqa: BLE001
             outs.append(("err", f"{type(e).__name__}: {e}"))
-    return outs
+    # the filter itself (the property's anchored mechanism) on points around the default run's solution
+    x0 = [float(v) for v in base_x] if base_x is not None else [0.0] * len(c)
+    filt = []
+    for label, x in filter_points(c, A, b, ints, case["minimize"], x0, EPS):
+        try:
+            v = bool(_is_feasible(tuple(x), [list(r_) for r_ in A], list(b), set(ints), EPS))
+        except Exception as e:  # noqa: BLE001
+            v = f"{type(e).__name__}: {e}"
+        filt.append((label, x, v))
+    return {"runs": outs, "filter": filt}
 
 
 DEFAULT_MAX_NODES = 100_000
@@ -265,7 +366,7 @@ def judge_trace(ctx, case, cfg, o, rp):
                                  "obj": (obj and float(core.unrat(obj))), "n_sols": len(sols)}})
 
 
-def to_request(case, out):
+def to_request(case, out, filt=None):
     impls = []
     if out[0] == "ok":
         for o in out[1]:
@@ -275,8 +376,9 @@ def to_request(case, out):
                 impls.append([r["status"], enc_point(r["x"]), enc_num(r["obj"]), [s for s in sols if s is not None]])
             else:
                 impls.append(["ERROR", None, None, []])
+    pts = [enc_point(x) for _, x, _ in (filt or [])]
     return ["milp", enc_vec(case["c"]), enc_mat(case["A"]), enc_vec(case["b"]), list(case["integers"]),
-            bool(case["minimize"]), rat(EPS), rat(TOL_OBJ), MAX_BOX, impls]
+            bool(case["minimize"]), rat(EPS), rat(TOL_OBJ), MAX_BOX, impls, [p_ for p_ in pts if p_ is not None]]
 
 
 # ---------------------------------------------------------------------------
@@ -287,13 +389,41 @@ def cfg_name(cfg):
     return ",".join(f"{k}={v}" for k, v in sorted(cfg.items())) or "default"
 
 
+CLAUSE = {1: "nonneg", 2: "integrality", 3: "row"}
+
+
+def judge_filter(ctx, case, filt, verdicts):
+    """`solvor.milp._is_feasible` against the proved mirror `isFeasible` (isFeasible_iff)."""
+    fn = "_is_feasible"
+    pts = [(lab, x, v) for lab, x, v in filt if enc_point(x) is not None]
+    for (lab, x, v), (lo, mid, hi, clause) in zip(pts, verdicts):
+        ctx.count("filter_points")
+        rp = {"case": {k: case[k] for k in ("c", "A", "b", "integers", "minimize")}, "point": x, "label": lab,
+              "impl": v, "mirror": [lo, mid, hi, clause]}
+        if not isinstance(v, bool):
+            ctx.fail(fn, "raises:" + str(v).split(":", 1)[0], f"_is_feasible raised on {x}: {v}", rp)
+            continue
+        if not (lo == mid == hi):
+            ctx.count("filter_boundary_skipped")     # within 0.1 % of eps of a boundary: rounding decides
+            continue
+        if v == mid:
+            ctx.count("filter_agree:" + ("accept" if v else "reject"))
+        elif v:
+            ctx.fail(fn, "is_feasible_accepts_infeasible:" + CLAUSE.get(clause, "?"),
+                     f"_is_feasible accepted {x} [{lab}] although it violates the {CLAUSE.get(clause)} clause "
+                     f"by more than eps", rp)
+        else:
+            ctx.fail(fn, "rejects_feasible", f"_is_feasible rejected {x} [{lab}] which satisfies every clause "
+                     "within eps", rp)
+
+
 def judge(ctx, case, out, reply):
     fn = "solve_milp"
     rep = {"case": case, "impl": out, "model": reply}
     if out[0] != "ok":
         ctx.fail(fn, "raises:" + err_kind(out), f"harness worker failed/timed out: {out[1]}", rep)
         return
-    relax, oracle, checks = reply
+    relax, oracle, checks, _filt = reply
     r_verdict, r_ok = relax
     kind, val, _pt, box = oracle
     if kind == "FAIL" or not r_ok:
@@ -385,21 +515,73 @@ def judge(ctx, case, out, reply):
 
 
 def run_cases(ctx, cases):
-    outs = run_pool(impl, cases, timeout=120.0)
+    """returns the list of (function, class, case) that failed"""
+    raw = run_pool(impl, cases, timeout=120.0)
+    outs = [("ok", o[1]["runs"]) if o[0] == "ok" else o for o in raw]
+    filts = [o[1]["filter"] if o[0] == "ok" else [] for o in raw]
     reqs, owner = [], []
     for ci, (c, o) in enumerate(zip(cases, outs)):
-        reqs.append(to_request(c, o)); owner.append((ci, None))
+        reqs.append(to_request(c, o, filts[ci])); owner.append((ci, None))
         for k, rq in bnb_requests(c, o):
             reqs.append(rq); owner.append((ci, k))
     replies = Driver("Lp").run(reqs, chunks=16)
+    failed = []
+    orig_fail = ctx.fail
     for (ci, k), rp in zip(owner, replies):
         c, o = cases[ci], outs[ci]
         if rp and rp[0] == "error":
             raise core.Infra(f"model rejected request: {rp} for {c}")
-        if k is None:
-            judge(ctx, c, o, rp)
-        else:
-            judge_trace(ctx, c, c["configs"][k], o[1][k], rp)
+
+        def rec(function, klass, what, replay, no_input=False, _c=c):
+            failed.append((function, klass, _c))
+            return orig_fail(function, klass, what, replay, no_input)
+        ctx.fail = rec
+        try:
+            if k is None:
+                judge(ctx, c, o, rp)
+                judge_filter(ctx, c, filts[ci], rp[3])
+            else:
+                judge_trace(ctx, c, c["configs"][k], o[1][k], rp)
+        finally:
+            ctx.fail = orig_fail
+    return failed
+
+
+def milp_candidates(case):
+    """drop configurations (the default run stays: warm starts are derived from it), then rows/columns/numbers"""
+    import copy
+    cfgs = case["configs"]
+    if len(cfgs) > 2:
+        for k in range(1, len(cfgs)):
+            c2 = copy.deepcopy(case)
+            del c2["configs"][k]
+            yield f"drop config {k}", c2
+    yield from lp_candidates(case, int_key="integers")
+
+
+def fails_batch(target):
+    def run(cands):
+        try:
+            failed = run_cases(RecCtx(), cands)
+        except Exception:  # noqa: BLE001 - e.g. a candidate the model rejects: evaluate one by one
+            failed = []
+            for cand in cands:
+                try:
+                    failed += run_cases(RecCtx(), [cand])
+                except Exception:  # noqa: BLE001
+                    pass
+        return [any(f == target[0] and k == target[1] and c is cand for f, k, c in failed) for cand in cands]
+    return run
+
+
+def shrink_failures(ctx, failed, limit=2):
+    seen = set()
+    for function, klass, case in failed:
+        if (function, klass) in seen or len(seen) >= limit:
+            continue
+        seen.add((function, klass))
+        small, hist = shrink(case, milp_candidates, fails_batch((function, klass)), max_rounds=60, max_seconds=40.0)
+        write_min(ctx, "C04", function, klass, small, hist)
 
 
 def run(ctx, budget):
@@ -411,9 +593,13 @@ def run(ctx, budget):
         inst = gen_instance(ctx.rng, big=(ctx.tier == "thorough" and i % 3 == 0))
         inst["configs"] = gen_configs(ctx.rng)
         cases.append(inst)
-    run_cases(ctx, cases)
+    failed = run_cases(ctx, cases)
+    if failed and not getattr(ctx, "seed_shift", 0):
+        shrink_failures(ctx, failed)
 
 
 def replay(ctx, body):
     ctx.cov["rule"] = RULE
-    run_cases(ctx, [body["case"]])
+    failed = run_cases(ctx, [body["case"]])
+    if failed and not body.get("minimised"):
+        shrink_failures(ctx, failed)
